@@ -67,6 +67,35 @@ def resolve_name(fn: ast.AST, e: ast.AST, depth: int = 0) -> ast.AST:
     return e
 
 
+def deep(fn: ast.AST, e: ast.AST, depth: int = 3) -> ast.AST:
+    """e with every local that is bound exactly once in fn (by a plain assignment) replaced by its value, repeatedly: the expression in
+    terms of the function's inputs, whatever explaining variables were introduced"""
+    from sa.core.paths import _subst
+    env = {}
+    count = {}
+    for st in walk_no_nested(fn):
+        if isinstance(st, ast.Assign):
+            for t in st.targets:
+                for n in ast.walk(t):
+                    if isinstance(n, ast.Name):
+                        count[n.id] = count.get(n.id, 0) + 1
+            if len(st.targets) == 1 and isinstance(st.targets[0], ast.Name):
+                env[st.targets[0].id] = st.value
+        elif isinstance(st, (ast.AugAssign, ast.AnnAssign)) and isinstance(st.target, ast.Name):
+            count[st.target.id] = count.get(st.target.id, 0) + 2
+        elif isinstance(st, (ast.For, ast.comprehension)):
+            for n in ast.walk(st.target):
+                if isinstance(n, ast.Name):
+                    count[n.id] = count.get(n.id, 0) + 2
+    env = {k: v for k, v in env.items() if count.get(k) == 1}
+    for _ in range(depth):
+        e2 = _subst(e, env)
+        if ast.dump(e2) == ast.dump(e):
+            break
+        e = e2
+    return e
+
+
 def const_membership(e: ast.AST):
     """(subject text, set of constants) when e says "<subject> is one of these constants": an or-chain of `S == c`, `S in (c, ...)`
     (tuple / list / set literal) or a mix; None otherwise."""
@@ -519,17 +548,18 @@ def check_core_scope_semantics(col, rule: str, repo: Repo):
     ok = any(isinstance(n, ast.Assign) and src(n.targets[0]) == "self._scope_stack" and "copy" in src(n.value) for n in ast.walk(ci.node))
     col.add(rule, "gc_scope.__init__", "token-snapshots-the-stack", ok, "a scope token must hold its own copy of the stack (later pushes must not change it)", ci.loc)
     ds = repo.function("deepest_scope")
-    rr = [r for r in walk_no_nested(ds.node) if isinstance(r, ast.Return)]
-    from sa.core.paths import guards, parent_map
-    pm = parent_map(ds.node)
-    from sa.core.paths import pguards
-    sig = [(src(r.value), sorted(set(pguards(ds.node, r, pm)))) for r in rr]
+    # as a decision table over its two tests (locals substituted): the second value exactly when its scope starts with the first's and
+    # not the other way round, the first value in the other three cases - however the cases are merged or ordered
+    from sa.core.paths import predicate_table
     p0, p1 = ds.node.args.args[0].arg, ds.node.args.args[1].arg
-    deeper = {("s2.starts_with(s1)", True), ("s1.starts_with(s2)", False)}        # the second strictly extends the first
-    ok = bool(sig) and all((set(g) == deeper) if v == p1 else (v == p0 and bool({(c, not t) for c, t in deeper} & set(g))) for v, g in sig) \
-        and any(v == p1 for v, _ in sig)
-    s1d = {src(n.targets[0]): src(n.value) for n in walk_no_nested(ds.node) if isinstance(n, ast.Assign)}
-    ok = ok and s1d == {"s1": f"{p0}.scope()", "s2": f"{p1}.scope()"}
+    atoms, table = predicate_table(ds.node)
+    a21, a12 = f"{p1}.scope().starts_with({p0}.scope())", f"{p0}.scope().starts_with({p1}.scope())"
+    sig = sorted((bits, r) for bits, r in table.items())
+    ok = set(atoms) == {a21, a12}
+    if ok:
+        for bits, r in table.items():
+            e_ = dict(zip(atoms, bits))
+            ok = ok and r == ("value", p1 if (e_[a21] and not e_[a12]) else p0)
     col.add(rule, "deepest_scope", "second-wins-only-if-strictly-deeper", ok,
             f"must return the second value only when its scope strictly extends the first's, otherwise the first (returns/guards found: {sig})", ds.loc)
     tl = repo.find_class("gc_scope_top_level")
